@@ -104,6 +104,14 @@ class FileSrc:
         return c
 
 
+class ClosableFileSrc(FileSrc):
+    """What a real file object has on top of read(): close()."""
+    closed = False
+
+    def close(self):
+        self.closed = True
+
+
 class _FmtHandler(logging.Handler):
     """A handler that does what real ones do: format the record."""
     def emit(self, record):
@@ -136,6 +144,14 @@ class IterSrc:
         self.i += 1
         self.pos += len(c)
         return c
+
+
+class ClosableIterSrc(IterSrc):
+    """A generator-like source: iteration plus close()."""
+    closed = False
+
+    def close(self):
+        self.closed = True
 
 
 def plan_chunks(data, cuts, empty_at=None):
@@ -207,7 +223,10 @@ def execute(data, chunks, kind, expected, allowed, reverse, faults):
     debug = kind.endswith('+debug')
     kind = kind.split('+')[0]
     if kind == 'file':
-        src = FileSrc(data)
+        # a real file: it has close(); the short-reading source below has none, iterator
+        # sources have one in every other configuration - InspectWrapper.close() must finish
+        # the inspectors either way (and close a source that can be closed)
+        src = ClosableFileSrc(data)
         feed = chunks + [b'']
     elif kind == 'file-short':
         # the reader always asks for 1 MiB; the source answers with the planned piece
@@ -215,7 +234,7 @@ def execute(data, chunks, kind, expected, allowed, reverse, faults):
         src = FileSrc(data, plan=[len(c) for c in chunks] + [0])
         feed = chunks + [b'']
     else:
-        src = IterSrc(list(chunks))
+        src = (ClosableIterSrc if reverse else IterSrc)(list(chunks))
         feed = chunks
     w = fi.InspectWrapper(src, expected_format=expected, allowed_formats=allowed)
     ds = S.install_detset(w, reverse)
@@ -281,6 +300,8 @@ def execute(data, chunks, kind, expected, allowed, reverse, faults):
             fin = [getattr(i, '_finished', None) for i in insps.values()]
             # (an implementation that keeps the flag elsewhere cannot be asked this way)
             closed_ok = True if any(f is None for f in fin) else all(fin)
+            if closed_ok is True and getattr(src, 'closed', None) is False:
+                closed_ok = 'source-left-open'
         except Exception as e:
             closed_ok = ('close-raised', type(e).__name__)
     return {'delivered': delivered, 'raised': raised, 'calls': calls,
